@@ -31,7 +31,7 @@ C[PA + 'slice'] = dict(
     requires=[('range', '0 <= start and start <= stop and stop <= len(self._sequence)')],
     bounded_by='proved against its own contract in contracts/annot.py (C11); here only: a function of (annotation, start, stop)', ensures=[])
 C[PA + 'serialize'] = dict(params=dict(self='Annotation', include_plus='bool'), returns='str', pure=True, trusted=True,
-                           bounded_by='single-chain serializer: round trip checked by bounded/C01.py', ensures=[])
+                           bounded_by='single-chain serializer: layout proved in contracts/serial.py (C01); parser-inverts-writer round trip bounded/C01.py', ensures=[])
 C[PA + '__len__'] = dict(params=dict(self='Annotation'), returns='int', pure=True, ensures=[('residues', 'result == len(self._sequence)')])
 C['peptacular.sequence.sequence_funcs:sequence_length'] = dict(
     params=dict(sequence='Annotation'), returns='int', pure=True, ensures=[('residues', 'result == len(sequence._sequence)')])
